@@ -47,7 +47,8 @@ func init() {
 			"host builtins registered by the harness itself (package verif, which panics on demand) are excluded from the sweep",
 			"re-entrant callbacks: WHAT a builtin answers when its container changes under it is unspecified and not judged (any value or ordinary error is accepted); the runs evaluate forms read once per worker through EvalContext, and a failure is loaded again as one source text in a fresh runtime (reported either way, the summary says whether it showed there too)",
 		},
-		Cases:         func(tier string) int { return pick(tier, 15167, 505555) }, // 12000 / 400000 + every seventh + every thirteenth
+		// 12000 / 400000 + every seventh + every thirteenth, then the block of operator forms
+		Cases:         func(tier string) int { return pick(tier, c03BaseQuick+c03OfQuickCases, c03BaseThorough+c03OfThorough) },
 		Run:           c03Run,
 		Init:          c03Init,
 		Driver:        c03Driver,
@@ -55,6 +56,12 @@ func init() {
 		WorkerTimeout: func(tier string) time.Duration { return time.Duration(pick(tier, 25, 240)) * time.Minute },
 	})
 }
+
+// the cases of families (1)-(5); the operator forms follow them
+const (
+	c03BaseQuick    = 15167
+	c03BaseThorough = 505555
+)
 
 type c03State struct {
 	files [][]byte
@@ -167,6 +174,12 @@ var c03CaseIdx int
 
 func c03Run(w *fw.W, idx int) {
 	c03CaseIdx = idx
+	// the operator forms (c03_opforms.go) are a block appended to the case list: the
+	// cases before it keep their numbers
+	if base := pick(w.Tier, c03BaseQuick, c03BaseThorough); idx >= base {
+		c03OpForms(w, idx, idx-base)
+		return
+	}
 	// every thirteenth case belongs to the re-entrant callbacks (c03_reentrant.go); the
 	// others keep the numbering they had before that family was interleaved
 	if idx%13 == 12 {
